@@ -106,10 +106,29 @@ typedef struct { vh_buf_t log, out, rem, fin; int any_false, n_calls; size_t pos
 static void run_free(run_t * r) { vh_buf_free(&r->log); vh_buf_free(&r->out); vh_buf_free(&r->rem); vh_buf_free(&r->fin); }
 
 /* cuts[i] = 1: a chunk boundary before byte i */
+/* history applied identically to every context before the stream itself is fed: the stream's behaviour may depend on the
+ * state it meets, but not on how the stream is cut */
+static int g_prehistory;
+static void apply_prehistory(vh_ctx_t * v, size_t bufsize) {
+    static const char pend[] = "T1 1;NUM 2;TXT 'x';T";
+    switch (g_prehistory) {
+        case 1: /* complete units pending, then a chunk that does not fit: -363, buffer discarded */
+            if (bufsize > sizeof pend + 2) { char * big = (char *) malloc(bufsize + 8); memset(big, 'A', bufsize + 8); vh_input(v, pend, sizeof pend - 1); vh_input(v, big, bufsize + 8); free(big); }
+            break;
+        case 2: if (bufsize > sizeof pend + 2) { vh_input(v, pend, sizeof pend - 1); vh_input(v, NULL, 0); } break;
+        case 3: if (bufsize > 24) { vh_input(v, "Q?;*IDN?\nFOO\n", 13); } break;
+        case 4: /* overrun on an empty buffer */ { char * big = (char *) malloc(bufsize + 3); memset(big, ';', bufsize + 3); vh_input(v, big, bufsize + 3); free(big); } break;
+        default: break;
+    }
+    SCPI_ErrorClear(v->ctx);
+    vh_ctx_clear_capture(v);
+}
+
 static void run_stream(const stream_t * s, const unsigned char * cuts, size_t bufsize, run_t * r, int record_pos) {
     vh_ctx_t * v = vh_ctx_new(cmds, bufsize, 16, 256);
     size_t a = 0, i;
     v->sigs = sigs; v->nsigs = NSIG;
+    apply_prehistory(v, bufsize);
     r->any_false = 0; r->n_calls = 0;
     if (record_pos) r->pos_after[0] = 0;
     for (i = 0; i <= s->n; i++) {
@@ -176,6 +195,7 @@ static void p0_run(uint64_t idx, vh_rng_t * rng) {
     static stream_t s; static run_t ref, r; static unsigned char cuts[MAXS + 2];
     size_t i, bufsize; int k; const char * what; int small = (idx % 4 == 3);
     if (!sigs[0].nsteps) init_sigs();
+    g_prehistory = (idx % 3 == 1 && !small) ? 1 + (int) vh_below(rng, 4) : 0; /* not in the tight-buffer family: the history itself must not depend on the buffer size */
     gen_stream(rng, &s);
     vh_case_desc("stream \"%s\"", vh_esc(s.b, s.n));
     bufsize = s.n + 2;
@@ -220,6 +240,8 @@ static void p0_run(uint64_t idx, vh_rng_t * rng) {
         vh_count("seg.random_multiway", 1);
     }
     vh_count("streams", 1);
+    if (g_prehistory == 1) vh_count("history.pending_units_then_overrun", 1);
+    if (g_prehistory) vh_count("history.context_with_history", 1);
     if (s.has_nl_in_string == 1) vh_count("stream.terminator_inside_string", 1);
     if (s.has_block_nl) vh_count("stream.terminator_inside_block", 1);
     if (s.has_flush) vh_count("stream.with_flush_calls", 1);
@@ -233,7 +255,7 @@ static void p0_run(uint64_t idx, vh_rng_t * rng) {
 
 int main(int argc, char ** argv) {
     static const vh_phase_t phases[] = { { "streams", p0_count, p0_run } };
-    vh_require("seg.all_at_once"); vh_require("seg.single_split"); vh_require("seg.random_multiway"); vh_require("stream.terminator_inside_block");
+    vh_require("history.pending_units_then_overrun"); vh_require("seg.all_at_once"); vh_require("seg.single_split"); vh_require("seg.random_multiway"); vh_require("stream.terminator_inside_block");
     vh_require("stream.terminator_inside_string"); vh_require("stream.with_flush_calls"); vh_require("stream.leaves_remainder"); vh_require("stream.produces_output");
     vh_require("stream.raises_errors"); vh_require("family.tight_buffer");
     return vh_main(argc, argv, "C08", phases, 1);
